@@ -105,8 +105,10 @@ def step (args : List String) : String :=
   | ["ext", h, het] =>
     match unhex h, nat? het with
     | some d, some het =>
-      showOut (fun r => match r with | some b => hex b | none => "none")
-        ((parseLctHeader d).bind fun l => getExt d l het)
+      if het < 256 then
+        showOut (fun r => match r with | some b => hex b | none => "none")
+          ((parseLctHeader d).bind fun l => getExt d l het)
+      else "bad-op"
     | _, _ => "bad-op"
   | "pkt" :: f :: i :: b :: e :: p :: ss :: inb :: rest =>
     match oti? [f, i, b, e, p, ss, inb], rest with
